@@ -21,7 +21,6 @@ use crate::run::Run;
 use crate::runq::tmp_file;
 use crate::util::{catch, Caught, Rng};
 
-const CLEAR: &str = "\x1B[2J\x1B[1;1H";
 
 /// raw stdout of the real follow executor over a static file
 fn follow_raw(p: &Prepared, lines: &[String]) -> (String, String) {
@@ -64,8 +63,10 @@ fn one(run: &mut Run, defs: &str, text: &str, lines: &[String]) {
         return;
     }
     // the screens: text between clear sequences
-    let mut parts: Vec<&str> = raw.split(CLEAR).collect();
-    let before_first_clear = parts.remove(0);
+    let mut screens = crate::util::split_screens(&raw);
+    let before_first_clear_s = screens.remove(0);
+    let before_first_clear = before_first_clear_s.as_str();
+    let parts: Vec<&str> = screens.iter().map(|s| s.as_str()).collect();
     if is_aggregate {
         run.count(&format!("x:agg:h{}:refreshes{}", text.contains("HAVING") as u8, parts.len().min(4)));
         if !before_first_clear.is_empty() {
